@@ -149,6 +149,23 @@ class TabRun:
             r = train_monte_carlo(env, q, T, epsilon=eps, gamma=p["gamma"], seed=seed, progress_bar=False)
             return np.asarray(r[0]), np.asarray(r[1])
         if algo == "dynaq":
+            from rl_blox.algorithm import dynaq as _dq
+            from rl_blox.algorithm.dynaq import train_dynaq
+
+            orig = _dq.planning
+            self.models = []
+
+            def planning(model_transition, model_reward, *a, **k):
+                self.models.append((np.asarray(model_transition), np.asarray(model_reward)))
+                return orig(model_transition, model_reward, *a, **k)
+
+            _dq.planning = planning
+            try:
+                return (np.asarray(train_dynaq(env, q, gamma=p["gamma"], learning_rate=p["lr"], epsilon=eps, n_planning_steps=p["n_planning_steps"],
+                                               buffer_size=p.get("buffer_size", 1000), total_timesteps=T, seed=seed, progress_bar=False)),)
+            finally:
+                _dq.planning = orig
+        if algo == "dynaq_unused":
             from rl_blox.algorithm.dynaq import train_dynaq
 
             return (np.asarray(train_dynaq(env, q, gamma=p["gamma"], learning_rate=p["lr"], epsilon=eps, n_planning_steps=p["n_planning_steps"],
@@ -263,6 +280,34 @@ class TabRun:
         else:
             self.check_dynaq_planning(steps, out)
         self.check_dynaq_model(steps)
+        self.check_dynaq_training_model(steps)
+
+    def check_dynaq_training_model(self, steps):
+        """The model train_dynaq hands to planning() after each real step equals the empirical
+        successor frequencies and mean rewards of the transitions observed so far."""
+        p = self.plan
+        models = getattr(self, "models", [])
+        if len(models) != len(steps):
+            self.res.unchecked += 1
+            return
+        nS, nA = p["n_states"], p["n_actions"]
+        cnt = np.zeros((nS, nA, nS))
+        rsum = np.zeros((nS, nA, nS))
+        for s, (T, R) in zip(steps, models):
+            cnt[s["s"], s["a"], s["s1"]] += 1
+            rsum[s["s"], s["a"], s["s1"]] += s["r"]
+            tot = cnt.sum(-1, keepdims=True)
+            freq = np.divide(cnt, tot, out=np.zeros_like(cnt), where=tot > 0)
+            mean = np.divide(rsum, cnt, out=np.zeros_like(cnt), where=cnt > 0)
+            if not close(T, freq, 1e-5, 1e-6):
+                bad = np.argwhere(~np.isclose(T, freq, 1e-5, 1e-6))[0]
+                self.V("C14.model", f"inside train_dynaq after {s['i'] + 1} transitions: learned P{tuple(int(x) for x in bad)}={T[tuple(bad)]:.4g}, empirical frequency {freq[tuple(bad)]:.4g}", site="train_dynaq")
+                return
+            if not close(R, mean, 1e-5, 1e-6):
+                bad = np.argwhere(~np.isclose(R, mean, 1e-5, 1e-6))[0]
+                self.V("C14.model", f"inside train_dynaq after {s['i'] + 1} transitions: learned reward R{tuple(int(x) for x in bad)}={R[tuple(bad)]:.4g}, empirical mean reward {mean[tuple(bad)]:.4g} (observed {int(cnt[tuple(bad)])} times)", site="train_dynaq")
+                return
+        self.res.probe("dynaq_training_model_histories")
 
     def check_dynaq_planning(self, steps, out):
         """n_planning_steps=1, single real step: the result must be reachable by the direct
